@@ -293,7 +293,7 @@ def run_family(ctx, name, items):
 # we know of; this makes it an observation instead of a belief)
 
 def slice_items():
-  return dedup(ge.family_gfa1("quick"))[::17]
+  return dedup(ge.family_gfa1("quick"))[::53]
 
 
 def digest():
@@ -314,19 +314,21 @@ def digest():
 
 
 def hashseed_crosscheck(ctx):
-  mine = digest()
-  res = {"cases": len(mine), "seeds": [], "differences": 0}
   items = slice_items()
+  procs = []
   for seed in ("1", "2"):
     env = dict(os.environ, PYTHONHASHSEED=seed, GFAMC_REPO=REPO,
                PYTHONDONTWRITEBYTECODE="1", PYTHONPATH=REPO + ":" + VERIF)
-    p = subprocess.run([sys.executable, "-m", "gfamc.checks.c14", "digest"],
-                       cwd=VERIF, env=env, capture_output=True, text=True,
-                       timeout=900)
+    procs.append((seed, subprocess.Popen(
+        [sys.executable, "-m", "gfamc.checks.c14", "digest"], cwd=VERIF,
+        env=env, stdout=subprocess.PIPE, stderr=subprocess.PIPE, text=True)))
+  mine = digest()
+  res = {"cases": len(mine), "seeds": [], "differences": 0}
+  for seed, p in procs:
+    so, se = p.communicate(timeout=900)
     if p.returncode != 0:
-      raise RuntimeError("hash-seed cross-check failed to run: " +
-                         p.stderr[-500:])
-    other = json.loads(p.stdout)
+      raise RuntimeError("hash-seed cross-check failed to run: " + se[-500:])
+    other = json.loads(so)
     res["seeds"].append(int(seed))
     for i, (x, y) in enumerate(zip(mine, other)):
       if x != y:
